@@ -208,8 +208,23 @@ ChildInsideParent == \A x \in Exprs : LET u == Unp(x) IN Inside(u, 0, Len(u.s))
 \* types: arithmetic is int, tests are bool - by construction; no node is untyped
 Total == \A x \in Exprs : x.t \in {"int", "bool"}
 
-Case(x) == LET u == Unp(x) IN
-           [text |-> u.s, type |-> x.t, ast |-> u,
+\* error quotation of a node: the source line with tabs shown as one blank, and under it carets over the columns
+\* [begin, end) of the node (C16); Prefix is what precedes the expression on its line ("\treturn ")
+Prefix == "\treturn "
+RECURSIVE Spaces(_), Carets(_)
+Spaces(n) == IF n <= 0 THEN "" ELSE " " \o Spaces(n - 1)
+Carets(n) == IF n <= 0 THEN "" ELSE "^" \o Carets(n - 1)
+Mark(b, e) == Spaces(Len(Prefix) + b) \o Carets(IF e - b < 1 THEN 1 ELSE e - b)
+RECURSIVE Annot(_)
+Annot(n) ==
+  LET m == [n EXCEPT !.s = n.s] @@ [q |-> Mark(n.b, n.e)] IN
+  CASE n.k \in {"bin", "cmp", "bool"} -> [m EXCEPT !.l = Annot(n.l), !.r = Annot(n.r)]
+    [] n.k \in {"un", "not"} -> [m EXCEPT !.e1 = Annot(n.e1)]
+    [] n.k = "tern" -> [m EXCEPT !.c = Annot(n.c), !.a = Annot(n.a), !.b1 = Annot(n.b1)]
+    [] OTHER -> m
+
+Case(x) == LET u == Annot(Unp(x)) IN
+           [text |-> u.s, type |-> x.t, ast |-> u, line |-> " return " \o u.s,
             vals |-> [i \in 1..Len(Envs) |-> LET r == Eval(x, Envs[i]) IN [ok |-> r.ok, v |-> IF ~r.ok THEN "undef" ELSE IF x.t = "bool" THEN (IF r.v THEN "True" ELSE "False") ELSE ToString(r.v)]]]
 Emit == \A x \in Exprs : PrintT("CASE " \o ToJson(Case(x)))
 EnvsJson == PrintT("ENVS " \o ToJson(Envs))
